@@ -79,7 +79,14 @@ func c16Case(fnS, namesS, opts, ret string) *hcase {
 				return nil, "err:" + classifyCheckErr(err)
 			}
 			applyOpts(fi, opts)
-			return fi.Wrap(), ""
+			h := fi.Wrap()
+			// the handler is fixed by the settings at the time of Wrap (see c15Case): changing them on the same
+			// FuncInfo afterwards, and wrapping again, must not affect it
+			invStrict := map[byte]byte{'u': 't', 't': 'f', 'f': 't'}
+			invArray := map[byte]byte{'u': 'f', 't': 'f', 'f': 't'}
+			applyOpts(fi, string([]byte{invStrict[opts[0]], invArray[opts[1]]}))
+			_ = fi.Wrap()
+			return h, ""
 		},
 		oracle: func(view pview, raw string) string {
 			if !(fd.kind == 'F' && len(fd.ins) >= 2 && len(names) == len(fd.ins)-1) {
